@@ -16,7 +16,8 @@ RULE = ('Generated: rule-conforming antennas over real ground: 1..3 media (eps 1
         'identical constants and height leaves the pattern unchanged (1e-9 dB); (d) appending a medium whose '
         'boundary lies just beyond every reflection point leaves it unchanged; (e) symmetries of the documented media '
         'layout: rotation about z over concentric media, y-shift and x-shift-with-boundaries over media allocated '
-        'along x, electromagnetic scaling with sigma/s.  Non-trivial = >= 2 media with '
+        'along x, electromagnetic scaling with sigma/s; (g) complex far field vs an independent reference model of the '
+        'documented reflection-coefficient approximation (1e-6 of the maximum).  Non-trivial = >= 2 media with '
         'reflection points on both sides of a boundary, or radials.')
 BUDGET = {'quick': {'examples': 700, 'wall': 220}, 'thorough': {'examples': 20000, 'wall': 1500}}
 ASSUMPTIONS = ['theta = 90 deg exactly is avoided (the program places that reflection point at 1e5 m by definition)',
@@ -131,9 +132,11 @@ def check(case):
         for md in c2['env']['media']:
             md['sigma'] = sg
             md['height'] = 0.0
-        d = maxdiff(pattern(common.solved(c2)), gi)
+        # within 40 dB of the maximum: the position of deep nulls moves with the ground constants
+        d = maxdiff(gi, pattern(common.solved(c2)), top=40)
         seq.append(d)
-        if prev is not None and d > prev * 1.001 + 1e-9:
+        # monotone once the ground is a good conductor (loss tangent >> 1 for every drawn frequency and permittivity)
+        if prev is not None and sg >= 1e6 and d > prev * 1.1 + 1e-9:
             fails.append(('sigma-sweep:not-monotone', 'max gain difference to ideal ground for sigma 1e2..: %s' % seq))
             break
         prev = d
@@ -175,6 +178,27 @@ def check(case):
                           'points up to %g) changes the pattern by %.3g dB' % (far, hi, d)))
     except build.Rejected as e:
         fails.append(('far-medium:rejected', str(e)[:150]))
+    # (g) reference model of the reflection-coefficient approximation (Fresnel coefficients from the surface
+    # impedance of the medium under the specular point, radial screen on the first medium, lower media, perfect
+    # image for the lowest half segment of grounded wires), written independently in pv/ref/fields.py
+    try:
+        from ..ref import fields as rf
+        A = build.mm.Angle
+        m.compute_far_field(A(*TH), A(*PH), dist=1.0)
+        et, ep = np.array(m.far_field.e_theta).T, np.array(m.far_field.e_phi).T
+        zen, azi = np.array(m.far_field.zen).T, np.array(m.far_field.azi).T
+        kk = 2 * math.pi * case['f'] / 299.8
+        mx = max(np.abs(et).max(), np.abs(ep).max())
+        worst = 0.0
+        Ic = np.array(m.current)
+        for ix in list(np.ndindex(et.shape))[::5]:
+            a_, b_ = rf.far_field_real_ground(topo, Ic, kk, case['f'], float(zen[ix]), float(azi[ix]), media, circular, env.get('radials'))
+            worst = max(worst, abs(a_ - et[ix]) / mx, abs(b_ - ep[ix]) / mx)
+        if worst > 1e-6:
+            fails.append(('reference-model:fresnel', 'far field over real ground differs from the reference reflection-coefficient '
+                          'model by %.3g of the pattern maximum' % worst))
+    except Exception as e:          # pragma: no cover - harness problem, not a verdict
+        fails.append(('harness:reference-model', repr(e)[:200]))
     # (e) symmetries of the documented media layout: concentric media (circular boundary, radial screen)
     # are rotationally symmetric about the z axis; media allocated along X do not depend on y, and a shift
     # along x together with all boundaries leaves the pattern unchanged
